@@ -118,7 +118,7 @@ pub fn run(args: &Args) -> i32 {
     let tabs = Tables::build(&cyc);
     let thorough = args.thorough();
     let dvals = d_values();
-    let nvar: u8 = if thorough { 5 } else { 2 };
+    let nvar: u8 = if args.digest_mode { 1 } else if thorough { 5 } else { 2 };
     let days = tabs.days.clone();
     let nd = days.len();
     let impl_days: Vec<_> = days.iter().map(|&d| rule_day(d)).collect();
